@@ -456,8 +456,6 @@ func vC05SeqBody(c *vh.Case) {
 			rawVal = []byte("not a c05 value")
 			rec.Value = rawVal
 		}
-		before := s.cur
-		_ = before
 		dsk, hadStored := s.dsKeyFor(k)
 		var storedRaw []byte
 		if hadStored {
@@ -658,8 +656,8 @@ type vC05PutRes struct {
 
 // vC05CheckJournal: per datastore key, ranks written never decrease unless a delete lies between;
 // every written record valid and correctly keyed. Returns the replayed final content.
-func vC05CheckJournal(c *vh.Case, j *vjds.Journal, val *vC05Validator) (final map[string]vC05Val, downgrades int) {
-	final = map[string]vC05Val{}
+func vC05CheckJournal(c *vh.Case, j *vjds.Journal, val *vC05Validator) (seqHash string, downgrades int) {
+	final := map[string]vC05Val{}
 	held := map[string]bool{}
 	var seq []string
 	for _, e := range j.Entries() {
@@ -691,8 +689,9 @@ func vC05CheckJournal(c *vh.Case, j *vjds.Journal, val *vC05Validator) (final ma
 			delete(final, e.Key)
 		}
 	}
-	c.Set("write_sequence_hash", vC05Hash(seq))
-	return final, downgrades
+	seqHash = vC05Hash(seq)
+	c.Set("write_sequence_hash", seqHash)
+	return seqHash, downgrades
 }
 
 func vC05OverlapKeys(c *vh.Case) []string {
@@ -730,7 +729,7 @@ func TestVerif_C05_overlap(t *testing.T) {
 			for w := 0; w < nw; w++ {
 				for i := 0; i < per; i++ {
 					k := keys[r.Intn(len(keys))]
-					p := vC05PutRes{key: k, class: "valid", val: vC05Val{ID: 1 + w*100 + i, Rank: r.Intn(12), Key: k}}
+					p := vC05PutRes{key: k, class: "valid", val: vC05Val{ID: 1 + w*100 + i, Rank: 2*i + r.Intn(7), Key: k}} // drifting upwards: many accepted writes
 					switch r.Intn(12) {
 					case 0:
 						p.class, p.val.Bad, p.val.Rank = "invalid", true, 50
@@ -766,7 +765,7 @@ func TestVerif_C05_overlap(t *testing.T) {
 			close(start)
 			wg.Wait()
 			g.hold = 0 // the final reads are not gated
-			final, downgrades := vC05CheckJournal(c, j, val)
+			seqHash, downgrades := vC05CheckJournal(c, j, val)
 			written := map[int]bool{}
 			for _, e := range j.Entries() {
 				if e.Op == vjds.OpPut && e.Err == "" {
@@ -832,15 +831,13 @@ func TestVerif_C05_overlap(t *testing.T) {
 				}
 				d, _ := vC05Dec(rec.GetValue())
 				c.Check(d.Rank == best[k], "final-is-best", "key %q: final stored record id=%d rank=%d, best acknowledged rank %d", k, d.ID, d.Rank, best[k])
-				_ = final
 			}
 			c.Obs("gate_timeouts", int(g.timeouts.Load()))
 			c.Obs("gate_overlaps", int(g.overlaps.Load()))
 			c.Obs("downgrades", downgrades)
 			c.Obs("refusals", refusals)
 			if g.timeouts.Load()+g.overlaps.Load() > 0 && refusals > 0 && multi {
-				ws, _ := c.descGet("write_sequence_hash")
-				c.Nontrivial(ws)
+				c.Nontrivial(seqHash)
 			}
 		})
 }
@@ -1026,7 +1023,7 @@ func TestVerifRace_C05_lin(t *testing.T) {
 					interesting = true
 				}
 				c.Obs("operations", len(ops))
-				res, info := porcupine.CheckOperationsVerbose(vC05LinModel, ops, 2*time.Minute)
+				res := porcupine.CheckOperationsTimeout(vC05LinModel, ops, 2*time.Minute)
 				switch res {
 				case porcupine.Unknown:
 					c.Obs("porcupine_unknown", 1)
@@ -1038,7 +1035,6 @@ func TestVerifRace_C05_lin(t *testing.T) {
 					for _, op := range ops {
 						lines = append(lines, fmt.Sprintf("  c%d [%d,%d] %s", op.ClientId, op.Call, op.Return, vC05LinModel.DescribeOperation(op.Input, op.Output)))
 					}
-					_ = info
 					c.Check(false, "linearizable", "history on key %q is not linearizable w.r.t. the no-downgrade register:\n%s", k, strings.Join(lines, "\n"))
 				}
 			}
